@@ -1,19 +1,21 @@
 #!/bin/sh
-# tools/build_l2.sh <out-binary> [-race] : builds the L2 worker (this repo's package main + the overlaid l2 test file)
+# tools/build_l2.sh <out-binary> [-race] : builds the L2 worker (the repository's package main + the overlaid l2 test file)
 OUT=$1; RACE=$2
+V=${VERIF_DIR:-/verif}; R=${VERIF_REPO:-/repo}
 export GOFLAGS=-mod=mod GOPROXY=off GOSUMDB=off GOTOOLCHAIN=local
-D=$(mktemp -d /verif/bin/l2build.XXXXXX) || exit 2
-cp /repo/go.mod $D/l2.mod
+mkdir -p $V/bin
+D=$(mktemp -d $V/bin/l2build.XXXXXX) || exit 2
+cp $R/go.mod $D/l2.mod
 cat >> $D/l2.mod <<M
 
 require verif/sim v0.0.0
 
-replace verif/sim => /verif/sim
+replace verif/sim => $V/sim
 
-replace github.com/vipnode/vipnode/v2 v2.0.0 => /repo
+replace github.com/vipnode/vipnode/v2 v2.0.0 => $R
 M
-cat /repo/go.sum /verif/sim/go.sum | sort -u > $D/l2.sum
-printf '{"Replace":{"/repo/zz_verif_l2_test.go":"/verif/l2/l2_test.go"}}' > $D/overlay.json
-(cd /repo && go1.26.8 test -c -tags verif $RACE -overlay $D/overlay.json -modfile $D/l2.mod -o $OUT . ) ; rc=$?
+cat $R/go.sum $V/sim/go.sum | sort -u > $D/l2.sum
+printf '{"Replace":{"%s/zz_verif_l2_test.go":"%s/l2/l2_test.go"}}' $R $V > $D/overlay.json
+(cd $R && go1.26.8 test -c -tags verif $RACE -overlay $D/overlay.json -modfile $D/l2.mod -o $OUT . ) ; rc=$?
 rm -rf $D
 exit $rc
